@@ -122,26 +122,27 @@ func checkImplementation(
 ) []InterfaceMethod {
 	var missing []InterfaceMethod
 
-	// Create index of type's methods
-	typeMethods := make(map[string]TypeMethod)
+	// Create index of type's methods; an unexported name is qualified by its package
+	type methodID struct{ pkg, name string }
+	typeMethods := make(map[methodID]TypeMethod)
 	for _, method := range typeModel.Methods {
 		// Filter methods based on pointer requirement
 		if requirePointer {
 			// For &Interface, we need pointer receiver methods
 			// (but value receiver methods are also OK per Go spec:
 			// method set of *T includes methods with receiver T or *T)
-			typeMethods[method.Name] = method
+			typeMethods[methodID{method.pkg, method.Name}] = method
 		} else {
 			// For Interface (no &), we need value receiver methods only
 			if !method.ReceiverIsPointer {
-				typeMethods[method.Name] = method
+				typeMethods[methodID{method.pkg, method.Name}] = method
 			}
 		}
 	}
 
 	// Check each interface method
 	for _, ifaceMethod := range iface.Methods {
-		typeMethod, exists := typeMethods[ifaceMethod.Name]
+		typeMethod, exists := typeMethods[methodID{ifaceMethod.pkg, ifaceMethod.Name}]
 		if !exists {
 			missing = append(missing, ifaceMethod)
 			continue
